@@ -16,6 +16,13 @@ Inductive acase :=
 (* a reparameterised site with L lanes: per-lane location / scale duals, scripted noise, then the
    deterministic continuation  sum_i w_i x_i + x_0 * x_last *)
 | CReparam (uniform : bool) (mus sigs : list D) (eps ws : list Qc) (op ot : Q)
+(* categorical_enum_parallel over weights w_i (duals; masses w_i / sum w) and values v_i, optionally followed
+   by a flip_enum site with probability p adding fw*(1+theta) when true: op/ot observed primal and tangent,
+   oe/og the observed estimate and grad_estimate *)
+| CCatEnum (ws vs : list D) (flip : option (D * D)) (op ot oe og : Q)
+(* batched flip_mvd: per-lane probability duals, the table of f on every outcome vector (value, d/dtheta),
+   and per scripted outcome the observed (primal, tangent) *)
+| CMvdVec (ps : list D) (table : list (list bool * D)) (runs : list (list bool * Q * Q))
 | CCanon (kin kout : nat)          (* 0 = symbolic zero, 1 = float0, 2 = value *)
 | CFlagA (ok : bool).
 
@@ -63,6 +70,47 @@ Definition check_acase (c : acase) : bool * bool * bool :=
       let lin := fold_right (fun (t : Qc * D) acc => dadd (dmul (dconst (fst t)) (snd t)) acc) (dconst 0) (combine ws xs) in
       let r := dadd lin (dmul (hd (dconst 0) xs) (last xs (dconst 0))) in
       let ok := close op (this (fst r)) && close ot (this (snd r)) in (ok, ok, ok)
+  | CCatEnum ws vs fl op ot oe og =>
+      let ddiv := fun a b : D => ((fst a / fst b)%Qc, ((snd a * fst b - fst a * snd b) / (fst b * fst b))%Qc) : D in
+      let W := fold_right dadd (dconst 0) ws in
+      let ev := fold_right (fun (t : D * D) acc => dadd (dmul (ddiv (fst t) W) (snd t)) acc) (dconst 0) (combine ws vs) in
+      let r := match fl with
+               | None => ev
+               | Some (p, g) => dadd ev (dmul p g)
+               end in
+      let ok := close op (this (fst r)) && close ot (this (snd r)) && close oe (this (fst r)) && close og (this (snd r)) in
+      (ok, ok, ok)
+  | CMvdVec ps table runs =>
+      let bits_eqb := fix go (a b : list bool) : bool :=
+          match a, b with [], [] => true | x :: a', y :: b' => Bool.eqb x y && go a' b' | _, _ => false end in
+      let F := fun b => match find (fun e : list bool * D => bits_eqb (fst e) b) table with
+                        | Some e => snd e | None => dconst (Q2Qc 0) end in
+      let flip_at := fix go (i : nat) (b : list bool) : list bool :=
+          match b, i with
+          | [], _ => []
+          | x :: b', O => negb x :: b'
+          | x :: b', S i' => x :: go i' b'
+          end in
+      (* lane-wise measure-valued estimator: f'(b) + sum_i (+-1) (f(flip_i b) - f(b)) p_i' *)
+      let est := fun b =>
+        let fb := F b in
+        let corr := fold_right (fun (t : nat * (bool * D)) (acc : Qc) =>
+                                  let '(i, (bi, p)) := t in
+                                  (acc + (if bi then - Q2Qc 1 else Q2Qc 1) * (fst (F (flip_at i b)) - fst fb) * snd p)%Qc)
+                               (Q2Qc 0) (combine (seq 0 (length b)) (combine b ps)) in
+        (fst fb, (snd fb + corr)%Qc) in
+      let agree := forallb (fun r : list bool * Q * Q =>
+                              let '(b, op, ot) := r in
+                              let e := est b in close op (this (fst e)) && close ot (this (snd e))) runs in
+      (* the estimator's mean over the outcome law is the exact derivative of the expectation *)
+      let prob := fun b => fold_right (fun (t : bool * D) acc =>
+                                         dmul (if fst t then snd t else dadd (dconst (Q2Qc 1)) (dmul (dconst (- Q2Qc 1)%Qc) (snd t))) acc)
+                                      (dconst (Q2Qc 1)) (combine b ps) in
+      let outcomes := map fst table in
+      let exact := fold_right (fun b acc => dadd (dmul (prob b) (F b)) acc) (dconst (Q2Qc 0)) outcomes in
+      let mean_t := fold_right (fun b (acc : Qc) => (acc + fst (prob b) * snd (est b))%Qc) (Q2Qc 0) outcomes in
+      let unbiased := Qc_eq_bool mean_t (snd exact) in
+      (agree && Nat.eqb (length runs) (length table), unbiased && agree, unbiased)
   | CCanon kin kout =>
       let t := match kin with O => TZero | S O => TFloat0 | _ => TV 1 end in
       let want := match canonicalize t with TZero => 0%nat | TFloat0 => 1%nat | TV _ => 2%nat end in
